@@ -150,7 +150,10 @@ def _slot_values(slot, seed, small):
         return out
     if slot[0] == "rotvec":
         angs = (ANGLES_SMALL + [PI + 0.1]) if small else (ANGLES_FULL + ANGLES_BEYOND)
-        return [("w(%s)" % ",".join("%.3g" % c for c in v), v, v) for v in rotvecs(seed, angles=angs, small=small)]
+        vs = rotvecs(seed, angles=angs, small=small)
+        if not small:
+            vs = vs + euler_edge_rotvecs()  # exp / log targets just outside the Euler gimbal band (non-zero roll, both poles)
+        return [("w(%s)" % ",".join("%.5g" % c for c in v), v, v) for v in vs]
     raise ValueError(slot)
 
 
